@@ -94,9 +94,18 @@ def case(g, tier, ci):
     r = g.r
     SR = r.choice([10, 100, 1e3, 2.5, 1e6])
     chans = r.sample([1, 2, 3, "A"], r.randint(1, 3))
+    twins = ci % 9 == 5
+    if twins:
+        # 1 and "1" (2 and "2") as two channels of one element: a sweep addressed to one of them leaves the other alone.  A
+        # description keys channels by their printed ids (one entry for the pair in Python, two in the model): such cases are
+        # judged by what is forged, descriptions are not compared
+        first = r.choice([1, 2])
+        chans = r.sample([first, str(first)], 2) + ([3] if r.random() < 0.4 else [])
     N = r.randint(8, 30)
     kind = r.choice(["vary", "vary", "lin", "rep", "rep"])
     ops, table = base_element(g, "e", SR, chans, N)
+    if twins:
+        ops[0] = {**ops[0], "_twins": True}
     if kind == "vary":
         M = r.randint(1, 5)
         vs = variations(g, table, chans, SR, M)
@@ -238,6 +247,8 @@ def to_Jval(pv):
 
 
 def post_check(ops, ri, rm):
+    if ops and ops[0].get("_twins"):
+        return None
     res = {o["_tag"]: r for o, r in zip(ops, ri) if o.get("_tag")}
     if "call" not in res or "in0" not in res or "err" in res["in0"]:
         return None
@@ -326,6 +337,21 @@ def post_check(ops, ri, rm):
                 if d:
                     return f"repeatAndVarySequence: {d}"
     return None
+
+
+_case_inner = case
+
+
+def case(g, tier, ci):
+    ops = _case_inner(g, tier, ci)
+    per_el = {}
+    for o in ops:
+        if o["op"] in ("el.addBP", "el.addArray"):
+            per_el.setdefault(o["id"], set()).add((type(o["ch"]).__name__, str(o["ch"])))
+    if any(len({s for _, s in v}) < len(v) for v in per_el.values()):
+        ops = [({**o, "_nocmp": True} if o["op"] in ("el.desc", "sq.desc") else o) for o in ops]
+        ops[0] = {**ops[0], "_twins": True}
+    return ops
 
 
 def nontrivial(ops, ri):
